@@ -405,6 +405,12 @@ func (c *Ctx) RuleSuffixOps() *Result {
 				} else {
 					res.bad(key, c.P.InstrPos(call), "strings."+f.Name()+" is given a computed string: it is a SET of characters, so every trailing/leading character that occurs in it is stripped — not the suffix/prefix (an entry that does not end in the pair's key is rewritten too, and more than the key is cut)")
 				}
+			case "HasSuffix":
+				// HasSuffix(entry, key) followed by slicing is CutSuffix written out: the same obligations apply
+				if len(call.Call.Args) < 2 || !inLoopOverStrings(call) {
+					return
+				}
+				fallthrough
 			case "CutSuffix", "TrimSuffix":
 				// must be skipped for directive and blank lines
 				res.Instances++
